@@ -20,11 +20,12 @@ func init() {
 				"through such a schema instance. Lemma: S-pow2 (n=2^k, raw&(n-1)) gives each residue 2^(32-k) preimages, never rejects. " +
 				"S-hi (T=M-M%n or (M/n)*n with M=2^32-1, accept v<T, return v%n): T=n*floor(M/n), so [0,T) holds each residue exactly floor(M/n) " +
 				"times; redraws are fresh independent words; for n not a power of two T>2^31 so more than half of the words are accepted. " +
-				"S-lo (t=(-n)%n, accept v>=t) accepts 2^32-(2^32 mod n) values, a multiple of n. S-one: n==1 returns 0.",
+				"S-lo (t=(-n)%n, accept v>=t) accepts 2^32-(2^32 mod n) values, a multiple of n. S-one: n==1 returns 0. " +
+				"S-lemire (p=uint64(v)*uint64(n), accept low32(p) >= t=(-n)%n, return high32(p)): for each r the words with high32(p)=r are those with v*n in [r*2^32,(r+1)*2^32); their low halves are the multiples-of-n offsets in that window, of which exactly floor(2^32/n) are >= t (Lemire 2019, lemma 4.1); the shortcut low>=n is sound because t<n; acceptance is (2^32-t)/2^32 > 1/2.",
 			Rules: []string{
 				"R1.1 raw-word well-formedness: result = bijective combination (binary.{Big,Little}Endian.Uint32 or shift/or tree using each byte once) of a 4-byte buffer allocated in the function, filled by crypto/rand.Read / io.ReadFull(rand.Reader) on the full buffer, used only on the err==nil edge, returned without further arithmetic, type uint32",
 				"R1.2 who-may-consume: every module function that calls or references a raw-word function must itself be a schema instance (R1.3); only raw-word functions reference crypto/rand",
-				"R1.3 schema instance: every return of a bounded-draw function is guarded by n>=1 and matches one of S-pow2, S-hi, S-lo, S-one exactly (strict comparison, mask n-1, threshold from the table, every reaching definition of the tested word a fresh raw call)",
+				"R1.3 schema instance: every return of a bounded-draw function is guarded by n>=1 and matches one of S-pow2, S-hi, S-lo, S-lemire, S-one exactly (strict comparison, mask n-1, threshold from the table, every reaching definition of the tested word a fresh raw call)",
 				"R1.4 floors: >=1 raw-word function, >=1 bounded-draw function, >=4 live draw sites",
 			},
 			Trusted:    append([]string{"crypto/rand.Read fills the whole buffer iff err==nil; encoding/binary Uint32 is a bijection of 4 bytes", "the paper lemma (schema => exactly uniform, acceptance > 1/2)"}, commonTrusted...),
@@ -358,7 +359,7 @@ func checkSchema(p *core.Program, r *core.Report, roles *Roles, fn *ssa.Function
 		// (a) n >= 1
 		r.Check(hasGuardNPositive(guards, n), r13, name, "return guarded by n>=1", rpos, "every return must lie beyond the n<1 rejection (panic) edge")
 		// (b) table
-		entry, why := matchSchema(v, n, guards, isRawCall, loops)
+		entry, why := matchSchema(v, n, guards, ret.Block(), isRawCall, loops)
 		if entry == "" {
 			r.Fail(r13, name, "return value matches no schema table entry", rpos, why)
 		} else {
@@ -370,31 +371,65 @@ func checkSchema(p *core.Program, r *core.Report, roles *Roles, fn *ssa.Function
 	for _, c := range roles.RawCalls[fn] {
 		ok := true
 		bad := ""
-		var visit func(v ssa.Value, depth int)
-		seen := map[ssa.Value]bool{}
-		visit = func(v ssa.Value, depth int) {
-			if seen[v] {
+		// what a value derived from the raw word is: the word itself, the word
+		// widened to 64 bits, the 64-bit product with n, its low or its high half
+		const (
+			stRaw = iota
+			stWide
+			stProd
+			stLow
+			stHigh
+		)
+		type key struct {
+			v  ssa.Value
+			st int
+		}
+		seen := map[key]bool{}
+		var visit func(v ssa.Value, st int)
+		visit = func(v ssa.Value, st int) {
+			if seen[key{v, st}] {
 				return
 			}
-			seen[v] = true
+			seen[key{v, st}] = true
 			for _, ref := range core.Referrers(v) {
 				switch x := ref.(type) {
 				case *ssa.Phi:
-					visit(x, depth+1)
+					visit(x, st)
+				case *ssa.DebugRef:
 				case *ssa.BinOp:
-					switch x.Op {
-					case token.AND, token.REM, token.LSS, token.LEQ, token.GTR, token.GEQ:
+					cmp := x.Op == token.LSS || x.Op == token.LEQ || x.Op == token.GTR || x.Op == token.GEQ
+					switch {
+					case st == stRaw && (cmp || x.Op == token.AND || x.Op == token.REM):
+					case st == stLow && cmp:
+					case st == stWide && x.Op == token.MUL:
+						visit(x, stProd)
+					case st == stProd && x.Op == token.SHR && x.X == v && isConstU(x.Y, 32):
+						visit(x, stHigh)
 					default:
 						ok, bad = false, x.String()
 					}
-				case *ssa.DebugRef:
+				case *ssa.Convert:
+					switch {
+					case st == stRaw && isUint64(x.Type()):
+						visit(x, stWide)
+					case st == stProd && isUint32(x.Type()):
+						visit(x, stLow)
+					case st == stHigh && isUint32(x.Type()):
+						visit(x, stHigh)
+					default:
+						ok, bad = false, x.String()
+					}
+				case *ssa.Return:
+					if st != stHigh {
+						ok, bad = false, x.String()
+					}
 				default:
 					ok, bad = false, ref.String()
 				}
 			}
 		}
-		visit(c, 0)
-		r.Check(ok, r12, name, "raw word used only by the schema (phi/compare/mask/remainder)", p.InstrPos(c), "other use: "+bad)
+		visit(c, stRaw)
+		r.Check(ok, r12, name, "raw word used only by the schema (phi/compare/mask/remainder, or the 64-bit product with n and its halves)", p.InstrPos(c), "other use: "+bad)
 	}
 }
 
@@ -562,7 +597,7 @@ func freshRawWord(w ssa.Value, isRawCall func(ssa.Value) (*ssa.Call, bool), loop
 	return visit(w)
 }
 
-func matchSchema(v ssa.Value, n ssa.Value, guards []core.Guard, isRawCall func(ssa.Value) (*ssa.Call, bool), loops []*core.Loop) (string, string) {
+func matchSchema(v ssa.Value, n ssa.Value, guards []core.Guard, retBlock *ssa.BasicBlock, isRawCall func(ssa.Value) (*ssa.Call, bool), loops []*core.Loop) (string, string) {
 	// S-one
 	if c, ok := core.ConstUint(v); ok && c == 0 {
 		for _, g := range guards {
@@ -574,9 +609,12 @@ func matchSchema(v ssa.Value, n ssa.Value, guards []core.Guard, isRawCall func(s
 		}
 		return "", "constant 0 returned without an n==1 guard"
 	}
+	if prod, isHigh := highHalf(v); isHigh {
+		return matchLemire(prod, n, guards, retBlock, isRawCall, loops)
+	}
 	b, ok := stripSameWidth(v).(*ssa.BinOp)
 	if !ok {
-		return "", "returned value " + core.Describe(v) + " is neither raw&(n-1) nor v%n"
+		return "", "returned value " + core.Describe(v) + " is neither raw&(n-1) nor v%n nor the high half of v*n"
 	}
 	switch b.Op {
 	case token.AND:
@@ -626,6 +664,146 @@ func matchSchema(v ssa.Value, n ssa.Value, guards []core.Guard, isRawCall func(s
 		return "", "v%n is returned without an acceptance test on v dominating the return (modulo bias)"
 	}
 	return "", "returned value " + core.Describe(v) + " matches no table entry"
+}
+
+// highHalf recognises uint32(prod >> 32) with prod a 64-bit value.
+func highHalf(v ssa.Value) (ssa.Value, bool) {
+	cv, ok := v.(*ssa.Convert)
+	if !ok || !isUint32(cv.Type()) {
+		return nil, false
+	}
+	sh, ok := cv.X.(*ssa.BinOp)
+	if !ok || sh.Op != token.SHR || !isConstU(sh.Y, 32) || !isUint64(sh.X.Type()) {
+		return nil, false
+	}
+	return sh.X, true
+}
+
+// matchLemire: S-lemire. The value returned is the high half of prod = uint64(v)*uint64(n),
+// v a fresh raw word on every reaching definition, and on every path to the
+// return the low half of that same product is known to be >= (-n)%n (= 2^32 mod n),
+// either directly or through the shortcut low >= n (2^32 mod n < n).
+func matchLemire(prod ssa.Value, n ssa.Value, guards []core.Guard, retBlock *ssa.BasicBlock, isRawCall func(ssa.Value) (*ssa.Call, bool), loops []*core.Loop) (string, string) {
+	var isLowOf func(low, pr ssa.Value, d int) bool
+	isLowOf = func(low, pr ssa.Value, d int) bool {
+		if d > 4 {
+			return false
+		}
+		if cv, ok := low.(*ssa.Convert); ok && isUint32(cv.Type()) && cv.X == pr {
+			return true
+		}
+		lp, ok1 := low.(*ssa.Phi)
+		pp, ok2 := pr.(*ssa.Phi)
+		if !ok1 || !ok2 || lp.Block() != pp.Block() || len(lp.Edges) != len(pp.Edges) {
+			return false
+		}
+		for i := range lp.Edges {
+			if lp.Edges[i] == ssa.Value(lp) && pp.Edges[i] == ssa.Value(pp) {
+				continue
+			}
+			if !isLowOf(lp.Edges[i], pp.Edges[i], d+1) {
+				return false
+			}
+		}
+		return true
+	}
+	// every reaching definition of the product is uint64(fresh raw word) * uint64(n),
+	// recomputed inside the loop that carries it
+	var fresh func(pr ssa.Value, seen map[ssa.Value]bool) (bool, string)
+	fresh = func(pr ssa.Value, seen map[ssa.Value]bool) (bool, string) {
+		if seen[pr] {
+			return true, ""
+		}
+		seen[pr] = true
+		switch x := pr.(type) {
+		case *ssa.BinOp:
+			if x.Op != token.MUL {
+				return false, "product is " + core.Describe(x)
+			}
+			a, b := x.X, x.Y
+			wide := func(v ssa.Value) (ssa.Value, bool) {
+				cv, ok := v.(*ssa.Convert)
+				if !ok || !isUint64(cv.Type()) || !isUint32(cv.X.Type()) {
+					return nil, false
+				}
+				return cv.X, true
+			}
+			wa, okA := wide(a)
+			wb, okB := wide(b)
+			if !okA || !okB {
+				return false, "product operands are not both uint64(uint32 value): " + core.Describe(x)
+			}
+			if wa == n {
+				wa, wb = wb, wa
+			}
+			if wb != n {
+				return false, "product is not taken with n"
+			}
+			return freshRawWord(wa, isRawCall, loops)
+		case *ssa.Phi:
+			for i, e := range x.Edges {
+				if ok, why := fresh(e, seen); !ok {
+					return false, why
+				}
+				pred := x.Block().Preds[i]
+				for _, l := range loops {
+					if l.Header == x.Block() && l.Blocks[pred] {
+						if in, ok := e.(ssa.Instruction); ok && !l.Blocks[in.Block()] {
+							return false, "the product carried around the retry loop is not recomputed inside it"
+						}
+					}
+				}
+			}
+			return true, ""
+		}
+		return false, "reaching definition of the product " + core.Describe(pr) + " is not uint64(raw)*uint64(n)"
+	}
+	if ok, why := fresh(prod, map[ssa.Value]bool{}); !ok {
+		return "", why
+	}
+	accepted := func(pr ssa.Value, gs []core.Guard) (bool, string) {
+		why := "no acceptance test on the low half of the product"
+		for _, g := range gs {
+			rel, ok := core.AsRel(g)
+			if !ok {
+				continue
+			}
+			if isLowOf(rel.Y, pr, 0) {
+				rel = rel.Flip()
+			}
+			if !isLowOf(rel.X, pr, 0) {
+				continue
+			}
+			if rel.Op == token.GEQ && (isLoThreshold(rel.Y, n) || rel.Y == n) {
+				return true, ""
+			}
+			why = fmt.Sprintf("acceptance test on the low half is `low %s %s`, need low >= (-n)%%n (or the shortcut low >= n)", rel.Op, core.Describe(rel.Y))
+		}
+		return false, why
+	}
+	if ok, _ := accepted(prod, guards); ok {
+		return "S-lemire", "high half of uint64(v)*uint64(n) under low half >= (-n)%n, every reaching v a fresh raw word"
+	}
+	phi, isPhi := prod.(*ssa.Phi)
+	if !isPhi || phi.Block() != retBlock {
+		_, why := accepted(prod, guards)
+		return "", why
+	}
+	for i, e := range phi.Edges {
+		pred := phi.Block().Preds[i]
+		gs := append([]core.Guard{}, core.Guards(pred)...)
+		for si, sb := range pred.Succs {
+			if sb == phi.Block() && len(pred.Succs) == 2 {
+				if g, ok := core.EdgeCond(pred, si); ok {
+					gs = append(gs, g)
+				}
+			}
+		}
+		if ok, why := accepted(e, gs); !ok {
+			return "", fmt.Sprintf("on the path through block %d: %s", pred.Index, why)
+		}
+	}
+	return "S-lemire", "high half of uint64(v)*uint64(n); on every path the low half is >= (-n)%n (directly or via low >= n), every reaching v a fresh raw word"
 }
 
 func isConstU(v ssa.Value, c uint64) bool {
